@@ -240,7 +240,7 @@ def cmd_replay(path):
     with core.Lock():
         core.build_model()
         core.build_harness(False)
-        if r.get("hook"):
+        if r.get("hook") is True:
             core.build_harness(True)
     a, b = core.run_one(r["mode"], r["case"], r.get("hook", False))
     log("case :", r["case"])
